@@ -17,6 +17,7 @@ import HT.Model.Iso
 import HT.Model.Release
 import HT.Model.Confine
 import HT.Model.Relay
+import HT.Model.Handoff
 /-!
 Line-protocol driver: one case per input line, `<model> <args…>`; one output line
 per case.  Core Lean only (so it links as an executable).
@@ -43,6 +44,7 @@ def dispatch (line : String) : String :=
   | "idtok" :: args => Id.driver args
   | "agent" :: args => Agent.driver args
   | "agentcodec" :: args => Agent.codecDriver args
+  | "handoff" :: args => Handoff.driver args
   | "ipp" :: args => Ipp.driver args
   | "seg" :: "http" :: args => Relay.segHttpDriver args
   | "dgram" :: args => Relay.dgramDriver args
